@@ -36,6 +36,8 @@ inductive Instr
   | waitthread (l : Nat)
   | pause
   | waitParent (ms : Nat)                       -- `local.p0 wait d` where p0 is the spawning thread
+  | waittillParent (names : List Nat)           -- `local.p0 waittill n` / `waittill_any`: the source is a *thread* object
+  | notifyParent (n : Nat)                      -- `local.p0 notify n`
   | end_ (v : EndV)
   | spawn (o : Nat)
   deriving Repr, DecidableEq, Inhabited
@@ -261,6 +263,7 @@ def stoppedWaitFor : Nat → State → Nat → Nat → Bool → State
         else
           -- StartTiming(): Stop(); state = Timing; AddTiming(this, 0)
           let s := stop fuel s t
+          if !s.alive t then s else       -- deleted by its own Stop() (wait cycle): StartTiming returns
           addTiming (s.setTh t (fun th => { th with ts := .timing })) t 0
       else s
 
@@ -315,7 +318,8 @@ def scriptExecuteInternal : Nat → State → Nat → State
     let savedCur := s.cur
     let s := { s with cur := some t }     -- (m_PreviousThread is written here too; nothing modelled reads it)
     let s := stop fuel s t
-    let s := execVM fuel s t
+    -- deleted by its own Stop() (wait cycle between threads): nothing to execute
+    let s := if s.alive t then execVM fuel s t else s
     -- restore (both are SafePtr: a thread destroyed meanwhile reads null)
     let s := { s with cur := savedCur.bind (fun c => if s.alive c then some c else none) }
     executeRunning fuel s
@@ -467,8 +471,26 @@ def exec : Nat → State → Nat → Th → Instr → State
       if th.parent == 0 || !s.alive th.parent || !s.hasVM th.parent then s else   -- NIL / NULL listener: script error
       let p := th.parent
       let s := stop fuel s p
+      if !s.alive p then s else         -- `p` was deleted by its own Stop() (wait cycle): Wait returns
       let s := addTiming (s.setTh p (fun th => { th with ts := .timing })) p ms
       vmSuspend s p
+    | .waittillParent names =>
+      -- `Listener::WaitTill` on a thread object (threads are listeners); NIL / NULL receiver: script error
+      if th.parent == 0 || !s.alive th.parent then s else
+      let o := th.parent
+      match s.cur with
+      | none => s
+      | some c =>
+        names.foldl (fun s n =>
+          let s := { s with notify := Tbl.push s.notify (o, n) c }
+          let s :=
+            if !Tbl.hasOwner s.waitFor c then
+              let s := stop fuel s c
+              vmSuspend (s.setTh c (fun th => { th with ts := .waiting })) c
+            else s
+          { s with waitFor := Tbl.push s.waitFor (c, n) o }) s
+    | .notifyParent n =>
+      if th.parent == 0 || !s.alive th.parent then s else unregister fuel s th.parent n
     | .end_ ev =>
       -- End()/EndRef(): result into the shared cell, then `delete m_Thread`.  Ending with a NIL
       -- value is indistinguishable from a plain `end` for the host.
